@@ -245,3 +245,56 @@ def iter_chain(t):
         else:
             break
     return out
+
+
+class ISite:
+    """a call site seen from an outer function: possibly inside a private helper the outer function calls; argument terms and
+    literals are expressed in the outer function's frame (helper parameters replaced by the caller's arguments)"""
+    __slots__ = ("body", "block", "term", "args", "lits", "outer_body", "outer_block", "via")
+
+    def loc(self):
+        return self.outer_body.loc(self.outer_body.blocks[self.outer_block].term.line)
+
+
+def inlined_sites(facts, body, pred, depth=2, _seen=()):
+    """call sites satisfying pred(Term) in `body` and (to the given depth) in the crate's own non-public helper functions it
+    calls directly; see ISite.  Lets a rule that reads `f` also read `f` after an extract-function refactoring."""
+    from .defuse import subst
+    from .conds import Lit
+    out = []
+    du = du_of(body)
+    for bi, t in body.calls():
+        if t.callee is None:
+            continue
+        if pred(t):
+            s = ISite()
+            s.body, s.block, s.term = body, bi, t
+            s.args = [du.operand_term(a, 30) for a in t.args]
+            s.lits = list(lits_of(body, bi, facts))
+            s.outer_body, s.outer_block, s.via = body, bi, ()
+            out.append(s)
+            continue
+        if depth <= 0:
+            continue
+        hb = facts.body(t.callee.target())
+        if hb is None or not hb.in_repo() or hb.kind == "closure" or hb.public or hb.impl_trait is not None or hb.path in _seen or hb.path == body.path:
+            continue
+        inner = inlined_sites(facts, hb, pred, depth - 1, _seen + (body.path,))
+        if not inner:
+            continue
+        mapping = {i + 1: du.operand_term(a, 30) for i, a in enumerate(t.args)}
+        here = list(lits_of(body, bi, facts))
+        for s0 in inner:
+            s = ISite()
+            s.body, s.block, s.term = s0.body, s0.block, s0.term
+            s.args = [subst(a, mapping) for a in s0.args]
+            ls = []
+            for l in s0.lits:
+                n = Lit(l.kind, subst(l.term, mapping), l.truth, l.variants, bi, l.raw, l.value, l.adt)
+                n.edge = None
+                n.implied = True
+                ls.append(n)
+            s.lits = here + ls
+            s.outer_body, s.outer_block, s.via = body, bi, (hb.path,) + s0.via
+            out.append(s)
+    return out
